@@ -201,7 +201,7 @@ var interludes = []string{
 func battery(names []string) []Text {
 	var ts []Text
 	add := func(forms ...*Node) {
-		ts = append(ts, progText(&Program{Forms: forms}, Style{NoTCO: true, NoAppendAlias: true}, "battery"))
+		ts = append(ts, progText(&Program{Forms: forms}, Style{NoTCO: true}, "battery"))
 	}
 	for _, n := range names { // read every global the program may have defined
 		add(Begin(Var(n)))
